@@ -820,12 +820,18 @@ def union_gadget_type(facts):
         if fn.get("rect") != "datasketches::hll_union_alloc" or fn["name"] != "union_impl":
             continue
         idx = [0]
+        from triggers import plainly_assigned_locals
+        pa_vals = plainly_assigned_locals(fn)
         casts = [0]
         walk(fn["body"], lambda n: casts.__setitem__(0, casts[0] + 1) if n.get("k") == "Cast" and "Hll8Array" in (n.get("t") or "") and not n.get("impl") else None)
 
         def v(n):
             if n.get("k") == "Assign" and n.get("op") == "=" and txt(n["l"]) == "dst_impl":
                 r = txt(n["r"])
+                # a local that only ever holds the result of one producer reads as that producer (helper inlined at the call site)
+                rr = strip_all(n["r"])
+                if rr.get("k") == "Ref" and rr.get("d") in pa_vals:
+                    r = " | ".join(txt(v) for v in pa_vals[rr["d"]])
                 key = "hll_union_alloc::union_impl:gadget-type#%d" % idx[0]
                 idx[0] += 1
                 if any(s in r for s in ok_sources):
